@@ -126,7 +126,22 @@ def unit(u, res):
             raise Unsupported('default set_value body not found')
         cons = []
         v, s = make_value(C, u[1], 'v', cons)
-        ex, outs = C.run(body, lambda st: [ref_to(st, C.empty_context(), mut=True), sstr('x'), v], pc=cons)
+        # Self = a user-defined context without variable storage that may serve read-only values: every Context method it is asked is a
+        # havoc stub (get_value: None or Some(any value of the written value's shape, possibly equal to it))
+        w, ws = make_value(C, u[1], 'w', cons)
+        ex = C.new_exec()
+
+        def ctx_stub(ex_, st, c, args):
+            m = c.split('::')[-1]
+            st.log.append(('ctxcall', m))
+            if m == 'get_value':
+                t = ex_.branch(st, [(z3.Bool('uc_has'), 'some'), (z3.Not(z3.Bool('uc_has')), 'none')])
+                return some(Ref(st.new_cell(copy_value(w)), [])) if t == 'some' else none()
+            if m == 'are_builtin_functions_disabled':
+                return z3.Bool('uc_disabled')
+            raise Unsupported('user context asked %s' % c)
+        ex.overrides.append((re.compile(r'<(Self|.*UserContext.*) as (context::)?Context>::\w+'), ctx_stub))
+        ex, outs = C.run(body, lambda st: [ref_to(st, Adt('UserContext', 0, [mkunit()]), mut=True), sstr('x'), v], pc=cons, ex=ex)
         res.paths += len(outs)
         res.bodies |= ex.bodies_used
         for p in outs:
@@ -134,12 +149,43 @@ def unit(u, res):
             claim = z3.BoolVal(p.kind == 'return' and p.value.variant == 1 and error_name(C.meta, p.value.fields[0]) == 'ContextNotMutable')
             verdict, model = pr.prove('default set_value', p.pc, claim)
             if verdict == 'sat':
-                res.sat.append(dict(key='default set_value accepts an assignment', witness='ContextWithMutableVariables::set_value default body'))
+                res.sat.append(dict(key='default set_value accepts an assignment', default_set_value=True,
+                                    witness='ContextWithMutableVariables::set_value default body on a storage-less context whose get_value(x) = %s, writing %s -> %s'
+                                            % (render_value(C.meta, w, model) if any(e == ('ctxcall', 'get_value') for e in p.log) else 'not asked', render_value(C.meta, v, model),
+                                               render_result(C.meta, p.value, model) if p.kind == 'return' else 'panic')))
 
 
 def replay_ce(ce):
     if 'operator' in ce and 'children' in ce:
         return c08.replay_ce(ce)
+    if ce.get('default_set_value'):
+        # native: a user-defined storage-less context (runner ServeCtx) that serves value s for every identifier; every write must fail with
+        # ContextNotMutable, through the trait method and through expressions, and the read-only evaluator must agree
+        vals = [('Int', 3), ('Float', 1.5), ('Boolean', True), ('String', 'q'), ('Tuple', [('Int', 1)]), ('Empty',)]
+        lits = ['3', '1.5', 'true', '"q"', '(1,)', '()']
+        details = []
+        bad = False
+        for prof in ('dev', 'release'):
+            text = ''
+            n = 0
+            cases = []
+            for served in [None] + vals:
+                vs = [('x', served)] if served is not None else []
+                for i, w in enumerate(vals):
+                    text += replay.case_text('s%d' % n, 'serve_set_value', '', vars=vs, ops=['arg %s' % replay.enc_value(w)])
+                    cases.append(('s%d' % n, 'set_value(x, %s) with get_value = %s' % (w, served)))
+                    n += 1
+                for p_ in ['x = %s' % l for l in lits] + ['x += 0', 'x *= 1', 'x += ""', 'x &&= true', 'x ||= false']:
+                    text += replay.case_text('s%d' % n, 'serve_eval_mut', p_, vars=vs)
+                    cases.append(('s%d' % n, '`%s` (mutable) with get_value = %s' % (p_, served)))
+                    n += 1
+            out = replay.run_cases(text, prof)
+            for cid, what in cases:
+                r = out[cid].get('result')
+                if r and r[0] == 'Ok':
+                    bad = True
+                    details.append('%s: %s -> %s' % (prof, what, r))
+        return ('reproduced' if bad else 'not_reproduced'), details[:6] or ['every write to the storage-less context fails natively']
     # native comparison of the two evaluators on probe programs
     progs = ['1 + 2', 'x * 2', 'f(x)', 's + "a"', 'x == 1', 'x = 2', 'x += 1', 'y = 1', '(1, x)', '1; x', 'min(x, 2)', 'missing', '1 / 0', 'x = 1 / 0', 'x = missing',
              'false && missing', 'true || (1 / 0 > 1)', 'x != 1 && 2 / (x - 1) > 1', 'typeof(x)', 'x &&= true', '-x', '!true']
